@@ -27,6 +27,7 @@ def run(ctx, rep):
         validate(prog, rep, tag)
         segments(ctx, prog, rep, tag)
         buffers(prog, rep, tag)
+        same_mailbox(prog, rep, tag)
 
 
 def _eq_cond(b, cd, field_adt, field, variant):
@@ -560,3 +561,51 @@ def _tree_with_params(b, t):
             return str(x[1])
         return "%s(%s, %s)" % (x[0], go(x[1]), go(x[2]))
     return go(t)
+
+
+
+def _builder_origin(b, op, depth=6):
+    """The `SubDeviceRef::read/write(addr)` call a command builder operand was made by (through ignore_wkc / with_wkc
+    / moves)."""
+    pl = op_place(op)
+    if pl is None or depth < 0:
+        return None
+    ds = b.defs().get(pl["l"], [])
+    if len(ds) != 1:
+        return None
+    d = ds[0]
+    if d[2] == "call":
+        c = d[3]
+        if c.is_("SubDeviceRef::read", "SubDeviceRef::write"):
+            return c
+        return _builder_origin(b, c.args[0], depth - 1) if c.args else None
+    if d[2] == "assign" and d[3]["rv"]["k"] in ("use", "cast") and d[3]["rv"].get("a"):
+        return _builder_origin(b, d[3]["rv"]["a"][0], depth - 1)
+    return None
+
+
+def same_mailbox(prog, rep, tag):
+    """A mailbox is read whole or not at all: the sync manager releases the buffer only when its *last* byte is read,
+    so a read of the OUT mailbox's address with another mailbox's length leaves a stale message in place (the next
+    transfer is then answered with the previous reply).  For every sized read in the mailbox layer whose address or
+    length comes from a configured mailbox, both come from the same one (MailboxConfig.read / .write, or the same
+    `&Mailbox` argument)."""
+    P = "C15.mbox"
+    n = 0
+    for b in prog.bodies:
+        if b.crate != "ethercrab" or b.d.get("is_test") or not b.file.startswith("src/mailbox/"):
+            continue
+        pr = Prov(b)
+        for c in b.calls():
+            if not (c.decl_s or c.name).endswith("::receive_slice") or len(c.args) < 3:
+                continue
+            ln = pr.of_operand(c.args[2])
+            if not has_root(ln, "field", "Mailbox", "len"):
+                continue
+            o = _builder_origin(b, c.args[0])
+            src = lambda r: sorted(x for x in r if (x[0] == "field" and x[1] == "MailboxConfig") or x[0] == "arg")
+            ad = pr.of_operand(o.args[1]) if o is not None and len(o.args) > 1 else frozenset()
+            n += 1
+            ok = o is not None and has_root(ad, "field", "Mailbox", "address") and src(ad) == src(ln)
+            rep.ob(P, "%s:address-and-length-of-one-mailbox%s" % (b.root_short, tag), ok, "the mailbox read in %s takes its address and its length from the same mailbox: address from %s, length from %s" % (b.root_short, roots_str(src(ad)), roots_str(src(ln))), loc=c.span, how="dataflow")
+    rep.floor("C15 sized mailbox reads" + tag, n, 2)
